@@ -170,6 +170,26 @@ def run_vh(args, timeout=1800):
             rep = json.loads(line[len("VHREPORT "):])
     if p.returncode == 124:
         raise ToolError(f"harness timed out: vh {' '.join(map(str, args))}")
+    ABORTS = {134: "SIGABRT", 139: "SIGSEGV", 132: "SIGILL", 135: "SIGBUS", 136: "SIGFPE",
+              -6: "SIGABRT", -11: "SIGSEGV", -4: "SIGILL", -7: "SIGBUS", -8: "SIGFPE"}
+    if rep is None and p.returncode in ABORTS and CURRENT_PID:
+        # the code under test took the whole process down (an abort is not a panic: allocation failure,
+        # stack overflow, abort()).  That is an observation about the code, not a tool error: re-run once with
+        # case tracking to name the input, and report it as a violation of the property being checked.
+        sig = ABORTS[p.returncode]
+        cf = os.path.join(workdir((CURRENT_PID or "x") + "-abort"), "case.txt")
+        p2 = subprocess.run(["timeout", str(timeout), VH] + [str(a) for a in args], env=dict(os.environ, VH_CASE_FILE=cf),
+                            stdout=subprocess.PIPE, stderr=subprocess.PIPE, text=True)
+        last = open(cf).read() if os.path.exists(cf) else "?"
+        if p2.returncode not in ABORTS:
+            log(p.stderr[-2000:])
+            raise ToolError(f"harness died with {sig} once and not again: vh {' '.join(map(str, args))}")
+        msg = (p2.stderr or p.stderr).strip().splitlines()[-3:]
+        rep = {"family": str(args[0]), "evaluations": 0, "traces": 0, "distinct_nontrivial": 0, "counters": {}, "samples": [],
+               "violations": [{"property": CURRENT_PID, "site": "process", "input_class": f"process-aborted:{sig}:{args[0]}",
+                               "detail": f"the process running `vh {args[0]}` was killed by {sig} inside the code under test "
+                                         f"(not a panic: nothing to catch); last case started: {last}; stderr: {' | '.join(msg)[:400]}",
+                               "replay": {"last_case": last, "signal": sig}}]}
     if rep is None:
         log(p.stdout[-2000:], p.stderr[-2000:])
         raise ToolError(f"harness produced no report: vh {' '.join(map(str, args))} (exit {p.returncode})")
